@@ -90,6 +90,15 @@ CHECKS = {
              "library whose inlining thresholds differ; all are compared with the reference model, which never inlines or simplifies.",
         note="Trusted: reference model. The always-inline build bounds caller growth (5x / 1000 insns) to keep nested call chains finite.",
         design="3/C04"),
+    "C08": dict(
+        technique=TECH + "differential execution against the platform compiler: layout probes (sizeof/_Alignof/offsetof/bit-field byte images) and "
+                         "by-value passing between c2m-compiled and gcc-compiled code in both directions; c2m is the ASan/UBSan/assert build",
+        text="Generated struct/union/enum/bit-field declarations (nesting, anonymous members, arrays, every scalar kind, bit-fields of every base "
+             "type and width incl. zero-width and unnamed) are probed under gcc and under c2m (-ei, -eg); for several of the types, functions taking and "
+             "returning them by value after 0-6 integer / 0-8 double / long double arguments are compiled by gcc into a shared object, called from "
+             "c2m code and calling back into c2m code; every member received on either side must equal the gcc-only run.",
+        note="Trusted: gcc on x86-64 Linux as the ABI. Open finding unnamed-bit-field-layout (types containing unnamed bit-fields).",
+        design="3/C08"),
     "C09": dict(
         technique=TECH + "differential execution of the preprocessor: c2m -E (ASan/UBSan/assert build) vs gcc -E -P on generated macro sets, invocations "
                          "and #if expressions, token strings compared",
